@@ -513,17 +513,32 @@ func r183(c *Ctx) {
 				}
 				f, _, isField := fieldLoad(ia.X)
 				guarded := false
-				if isField {
-					lo, _, _ := interval(intFacts(in, func(v ssa.Value) bool {
-						c2, ok := v.(*ssa.Call)
-						if !ok {
-							return false
+				lo, _, neq := interval(intFacts(in, func(v ssa.Value) bool {
+					c2, ok := v.(*ssa.Call)
+					if !ok {
+						return false
+					}
+					b2, ok := c2.Call.Value.(*ssa.Builtin)
+					if !ok || b2.Name() != "len" {
+						return false
+					}
+					return c2.Call.Args[0] == ia.X || (isField && isLoadOfField(c2.Call.Args[0], f))
+				}))
+				// a length is never negative: `len(x) != 0` (or the false arm of `== 0`) gives len >= 1
+				if lo < 0 {
+					lo = 0
+				}
+				for changed := true; changed; {
+					changed = false
+					for _, n := range neq {
+						if n == lo {
+							lo++
+							changed = true
 						}
-						b2, ok := c2.Call.Value.(*ssa.Builtin)
-						return ok && b2.Name() == "len" && isLoadOfField(c2.Call.Args[0], f)
-					}))
-					guarded = lo >= k+1
-				} else if sl, ok := ia.X.(*ssa.Slice); ok {
+					}
+				}
+				guarded = lo >= k+1
+				if sl, ok := ia.X.(*ssa.Slice); ok && !guarded {
 					_, guarded = sl.X.(*ssa.Alloc) // slice of a local array literal
 				}
 				c.ob(rule, fmt.Sprintf("constant index [%d] in %s", k, fname(fn)), in.Pos(), guarded, true, "indexing a slice with a constant must be dominated by a length test (index out of range panics)")
@@ -561,7 +576,7 @@ func r183(c *Ctx) {
 	okRestore := false
 	for _, w := range c.writesOfField(activeF) {
 		if w.fn == um && onlyErrNilGuards(w.instr) {
-			if call, ok := w.val.(*ssa.Call); ok && call.Call.StaticCallee() != nil && call.Call.StaticCallee().Name() == "NewLoadBalancer" {
+			if call, ok := nonNilSource(w.val).(*ssa.Call); ok && call.Call.StaticCallee() != nil && call.Call.StaticCallee().Name() == "NewLoadBalancer" {
 				okRestore = true
 			}
 		}
